@@ -17,6 +17,9 @@ def run(ctx):
         graph_replay(ctx, "Queue", "Queue", cfg, "seq_void" if void else "seq", rp, PROJ, header_fn=hdr,
                      merge_re=r"(PushResolve|UnblockResolve)$", must_take=ACTIONS,
                      constants=deep or None, extra_random=200 if ctx.quick else 2000)
+    # an item type whose constructor can throw: a failing push changes nothing, whichever branch it would have taken
+    graph_replay(ctx, "Queue", "Queue", "Queue_seq_item.cfg", "item", rp, PROJ, header_fn=lambda k, st0: {"void": False, "item": True, "mode": "coro" if k % 2 else "poll"},
+                 merge_re=r"(PushResolve|UnblockResolve)$", must_take=["PushCS", "PopCS", "PushThrow"], max_paths=1500 if ctx.quick else None)
     # long single-client histories (up to 20 pushes / 20 pops, the item store grows and shrinks repeatedly and its
     # read position moves): cheap on the specification (a few thousand states) and the only way to reach behaviour
     # that depends on the capacity of the underlying container (growth while wrapped, 4 -> 8 -> 16 -> 32)
